@@ -158,3 +158,33 @@ Proof.
   split; [reflexivity|]. split; [constructor|]. split; [repeat constructor|]. split; [constructor|]. split; [constructor|].
   split; [lia|]. split; [lia|]. split; [right; right; lia|lia].
 Qed.
+
+(* ... and it is a WHOLE token: all its characters are digits or dots, none of which is a delimiter, while the characters on both sides (if any) are
+   delimiters -- the span is a maximal run of token characters, so a replacement leaves no fragment of the original behind *)
+Lemma zeros_chars z : zeros z -> Forall (fun x => dig x \/ x = 46%N) z.
+Proof. unfold zeros, dig. intro H. eapply Forall_impl; [|exact H]. intros x ->. left. lia. Qed.
+Lemma octet_chars t : octet_core t -> Forall (fun x => dig x \/ x = 46%N) t.
+Proof. intro H. destruct (octet_core_value t H) as [_ F]. eapply Forall_impl; [|exact F]. intros x Hx. now left. Qed.
+Lemma dotted_quad_chars t : dotted_quad t -> Forall (fun x => dig x \/ x = 46%N) t.
+Proof.
+  intros (z1 & o1 & z2 & o2 & z3 & o3 & z4 & o4 & -> & Z1 & Z2 & Z3 & Z4 & O1 & O2 & O3 & O4).
+  assert (D : Forall (fun x => dig x \/ x = 46%N) [46%N]) by (constructor; [now right|constructor]).
+  repeat (apply Forall_app; split); auto using zeros_chars, octet_chars.
+Qed.
+Lemma token_char_not_enclosing x : dig x \/ x = 46%N -> in_cset x ENC = false.
+Proof.
+  unfold dig, ENC. cbn [in_cset existsb fst snd xorb]. intros [H| ->]; [|reflexivity].
+  repeat match goal with |- context [(?a <=? x)%N] => destruct (N.leb_spec a x) | |- context [(x <=? ?a)%N] => destruct (N.leb_spec x a) end; cbn [andb orb]; try reflexivity; lia.
+Qed.
+Theorem ipv4_match_is_a_whole_token (s : list chr) i c j c' : i <= length s ->
+  In (j, c') (ms s IPV4_RX i c) ->
+  Forall (fun x => in_cset x ENC = false) (sub s i j) /\
+  (i = 0 \/ exists x, nth_error s (i - 1) = Some x /\ in_cset x ENC = true) /\
+  (eol s j = true \/ exists x, nth_error s j = Some x /\ in_cset x ENC = true).
+Proof.
+  intros Hi H. destruct (ipv4_match_is_a_standalone_dotted_quad s i c j c' Hi H) as (A & B & Q).
+  split; [|split].
+  - eapply Forall_impl; [|exact (dotted_quad_chars _ Q)]. intros x. apply token_char_not_enclosing.
+  - destruct A as [->|(_ & x & Hx & Ex)]; [now left|right; eauto].
+  - exact B.
+Qed.
